@@ -46,6 +46,11 @@ func NewProxy(backendAddr multiaddr.Multiaddr) *Proxy {
 
 func (p *Proxy) Addr() multiaddr.Multiaddr { return HTTPAddr(p.srv.URL) }
 
+// DropClients closes the connections clients hold to the proxy, from the proxy's side.  Called at the end of a run, before the
+// subscriber closes its own idle connections: the side that closes first keeps the socket in TIME_WAIT, and on the client's
+// side that is an ephemeral port -- thousands of runs in a row would leave no port for the next test server to listen on.
+func (p *Proxy) DropClients() { p.srv.CloseClientConnections() }
+
 // HTTPAddr turns the URL of a test server ("http://127.0.0.1:port") into the multiaddr of that endpoint.  When the IPv4 loopback
 // has no port left to listen on (tens of thousands of sockets in TIME_WAIT after many runs in a row), httptest falls back on
 // "[::1]:port"; the runs are not set up for that, so this is an infrastructure failure (the shard stops; the check exits 2).
